@@ -314,9 +314,14 @@ class AnnotationDAGBuilder:
         Построить граф путем сборки зависимостей по аннотациям типа (меткам входов)
         """
 
+        if output_node is None or output_node is input_node:
+            # A DAG of a single node: there is nothing to traverse, the node is validated like any other
+            self.validate_node(input_node)
+            self._get_input_marks_map(input_node)  # rejects a generic input that was never redefined
+
         self._add_node_to_map(input_node)
 
-        if output_node is None:
+        if output_node is None or output_node is input_node:
             output_node = input_node
             self._dag.add_node(get_node_id(input_node))
         else:
